@@ -342,9 +342,14 @@ static void gc_mark(GCHeader* header) {
             /* Note: Arrays of GC objects store pointers to those objects */
             if (elem_type == ELEM_ARRAY || elem_type == ELEM_STRUCT) {
                 int64_t len = dyn_array_length(arr);
-                /* For object arrays, data is an array of pointers */
+                /* Arrays of arrays hold one pointer per element.  Arrays of structs hold the structs
+                 * inline (elem_size bytes each): scan the pointer-sized words they occupy, and no
+                 * further (a struct smaller than a pointer has none). */
+                if (elem_type == ELEM_STRUCT) {
+                    len = (int64_t)(((size_t)len * arr->elem_size) / sizeof(void*));
+                }
                 void** ptr_data = (void**)arr->data;
-                for (int64_t i = 0; i < len; i++) {
+                for (int64_t i = 0; ptr_data && i < len; i++) {
                     void* elem = ptr_data[i];
                     if (elem && gc_is_managed(elem)) {
                         gc_mark(gc_get_header(elem));
